@@ -25,6 +25,13 @@ func runC05(r *run) {
 		if r.tier == "thorough" {
 			n = 3000
 		}
+		// executions that fail (at several places of one template) while others succeed
+		for i, f := range []string{`s1|date:"2006"`, `s1|pluralize:"a,b,c"`, `s1|slice:"1"`, `s1|floatformat:"x"`, `1 / z`, `nosuchfn()`, `lst|time:"15"`} {
+			src := "a{% if n1 > 3 %}{{ " + f + " }}{% endif %}\nb{{ s2 }}\n{% if n1 <= 3 %}  {{ " + f + " }}{% endif %}c"
+			g := newProgGen(rg.fork(uint64(50003 + i)))
+			a := append((&world{}).args(src, g.context(i%2)), "-", "-", "8", "4")
+			cases = append(cases, caseT{"conc", append(a, "concfirst")})
+		}
 		for i := 0; i < n; i++ {
 			g := newProgGen(rg.fork(uint64(i)))
 			g.allowInc = true
@@ -101,10 +108,19 @@ func execC05(r *run, c caseT) {
 	fmt.Sscanf(c.args[10], "%d", &procs)
 	old := runtime.GOMAXPROCS(procs)
 	defer runtime.GOMAXPROCS(old)
-	seq, _ := w.render(src, false, ctx)
+	// (for "concfirst" cases the concurrent executions are the first ones of the process to take
+	// the path: the sequential baseline is computed afterwards)
+	concFirst := len(c.args) > 11 && c.args[11] == "concfirst"
+	var seq *outcome
+	if !concFirst {
+		seq, _ = w.render(src, false, ctx)
+	}
 	b := w.build()
 	tpl, err, _ := compileIn(b, src, false)
 	if err != nil || tpl == nil {
+		if seq == nil {
+			seq, _ = w.render(src, false, ctx)
+		}
 		r.emit("render", c.args, seq.obs)
 		return
 	}
@@ -143,6 +159,9 @@ func execC05(r *run, c caseT) {
 	}
 	close(start)
 	wg.Wait()
+	if concFirst {
+		seq, _ = w.render(src, false, ctx)
+	}
 	id := r.emit("render", c.args, seq.obs)
 	if len(c.args) > 11 && c.args[11] == "nocompare" {
 		return
